@@ -5,7 +5,10 @@ Model of the TLS certificate resolver `sozu_lib::tls::CertificateResolver`
 `authority_matches_sni` / `authority_matched_cert_name`
 (lib/src/protocol/mux/router.rs), transcribed branch for branch.
 
-* a fingerprint is an opaque id (`Nat`; in the code SHA-256 of the leaf DER,
+* a fingerprint is an opaque id (`Nat`) standing for the *decoded bytes* (the
+  hex text a command carries (`old_fingerprint`, `RemoveCertificate.fingerprint`)
+  is decoded by `hex::decode`, which accepts either case, so case variants of
+  the text are the same id); in the code it is the SHA-256 of the leaf DER,
   a function of the certificate bytes only -- overriding `names` / `expired_at`
   does not change it);
 * a certificate is `(fingerprint, names, expiration)` -- the rustls
@@ -188,6 +191,9 @@ inductive Op
   /-- an `AddCertificate` whose PEM / key does not parse -/
   | addInvalid
   | remove (fp : Fp)
+  /-- a `RemoveCertificate` whose fingerprint is not hex (`HttpsProxy::remove_certificate`
+      answers `WrongCertificateFingerprint` before reaching the resolver) -/
+  | removeInvalid
   | replace (old : Option Fp) (c : Cert)
   /-- a `ReplaceCertificate` whose new PEM / key does not parse -/
   | replaceInvalid (old : Option Fp)
@@ -210,6 +216,7 @@ def step (s : State) (op : Op) : State × Out :=
         | none => (s, .err)
       | .addInvalid => (s, .err)
       | .remove fp => (remove s fp, .ok)
+      | .removeInvalid => (s, .err)
       | .replace old c =>
         match prepare c with
         | some c' => (replace s old c', .fp c'.fp)
